@@ -1,9 +1,9 @@
 (* C02 — constant folding never changes what an expression computes.  Property theorems only; proofs are in Proofs/. *)
 From Coq Require Import List Arith ZArith.
 Import ListNotations.
-From Exmex.Model Require Import Base EvalBinary Lexer Flat.
+From Exmex.Model Require Import Base EvalBinary Lexer Flat Deep.
 From Exmex.Spec Require Import RefSem.
-From Exmex.Proofs Require Import FlatPev CompileCorrect C02Main C01Main C01Vars.
+From Exmex.Proofs Require Import FlatPev CompileCorrect C02Main C01Main C01Vars DeepSem DeepCompile C03Main.
 Open Scope nat_scope.
 
 (* 1. FlatEx::compile on ANY flat expression with one more node than operators and the schedule of
@@ -92,6 +92,48 @@ Proof.
   exists fx, fx', v'. repeat split; try assumption; [congruence|]. eapply Ht; [exact He|exact H4].
 Qed.
 
+(* 5. DeepEx::compile (lifting of single-node wrappers, the folding loop with the deep keys, the unary operators on a
+   single remaining literal) on ANY well-formed deep expression: it succeeds, the result is well formed, and both the
+   denotation and the evaluated value are preserved modulo R, for every assignment. *)
+Theorem C02_deep_folding_is_invisible :
+  forall (D : Type) (C : carrier D) (R : D -> D -> Prop),
+  (forall a, R a a) -> (forall a b, R a b -> R b a) -> (forall a b c, R a b -> R b c -> R a c) ->
+  (forall k a a' b b', R a a' -> R b b' -> R (binf C k a b) (binf C k a' b')) ->
+  (forall k a a', R a a' -> R (unf C k a) (unf C k a')) ->
+  forall (flagged : nat -> Prop),
+  (forall k, flagged k -> forall a b c, R (binf C k (binf C k a b) c) (binf C k a (binf C k b c))) ->
+  forall (vals : list D) (okvars : list str -> Prop), (forall v, okvars v -> length v <= length vals) ->
+  forall e : deepex D, dwf flagged vals okvars e ->
+  exists e' v v', dcompile C e = Ok e' /\ dwf flagged vals okvars e' /\ R (dden C vals e') (dden C vals e) /\
+                  eval_deep_relaxed C e vals = Ok v /\ eval_deep_relaxed C e' vals = Ok v' /\ R v' v.
+Proof.
+  intros D C R Hr Hs Ht Hb Hu flagged Ha vals okvars Hok e Hwf.
+  destruct (dcompile_ok C R Hr Hs Ht Hb Hu flagged Ha vals okvars e Hwf) as (e' & Hc & Hwf' & HR).
+  destruct (eval_deep_is_dden C R Hr Hs Ht Hb Hu flagged Ha vals okvars Hok e Hwf) as (v & Ev & Rv).
+  destruct (eval_deep_is_dden C R Hr Hs Ht Hb Hu flagged Ha vals okvars Hok e' Hwf') as (v' & Ev' & Rv').
+  exists e', v, v'. repeat split; try assumption.
+  eapply Ht; [exact Rv'|]. eapply Ht; [exact HR|]. apply Hs. exact Rv.
+Qed.
+
+(* 6. the deep expression of every well-formed surface tree (the deep parser always folds) is the reference semantics *)
+Theorem C02_deep_parse_is_reference :
+  forall (D : Type) (C : carrier D) (tb : optable) (R : D -> D -> Prop),
+  (forall a, R a a) -> (forall a b, R a b -> R b a) -> (forall a b c, R a b -> R b c -> R a c) ->
+  (forall k a a' b b', R a a' -> R b b' -> R (binf C k a b) (binf C k a' b')) ->
+  (forall k a a', R a a' -> R (unf C k a) (unf C k a')) ->
+  (forall o, comm_of tb o = true -> forall a b c, R (binf C o (binf C o a b) c) (binf C o a (binf C o b c))) ->
+  forall (c : chain (D:=D)) (vals : list D),
+  wf_chain tb c = true -> length vals = length (find_parsed_vars (flatten c)) ->
+  exists e v,
+    dparse C tb (S (length (flatten c))) None (flatten c) (find_parsed_vars (flatten c)) [] [] [] = Ok (e, []) /\
+    dvars e = find_parsed_vars (flatten c) /\
+    eval_deep C e vals = Ok v /\
+    R v (ref_chain C tb (find_parsed_vars (flatten c)) vals c).
+Proof.
+  intros D C tb R Hr Hs Ht Hb Hu Ha c vals Hwf Hlen.
+  exact (deep_parse_is_reference C tb R Hr Hs Ht Hb Hu Ha c vals Hwf Hlen).
+Qed.
+
 (* non-vacuity: 1+2+x*3*4 over a small table folds to two operators less and is the same term up to regrouping *)
 Definition ex_tb : optable :=
   [ {| repr := [43]%N; obin := Some {| prio := 0; comm := true |}; ounary := true; oconst := false |};
@@ -108,9 +150,11 @@ Example C02_example :
               Bin 0 (Bin 0 (Lit [49%N]) (Lit [50%N])) (Bin 1 (V 0) (Bin 1 (Lit [51%N]) (Lit [52%N])))).
 Proof. vm_compute. reflexivity. Qed.
 
-(* Outside these theorems: DeepEx::compile (the deep form folds with its own loop over nested nodes) — covered by the
-   correspondence of this check (model = implementation evaluated in Coq; implementation = reference interpreter). *)
+(* Outside these theorems: the tokenizer on text renderings and acceptance by check_preconditions for the tree-level
+   statements (4, 6) — covered by the correspondence of this check. *)
 Print Assumptions C02_folding_is_invisible.
 Print Assumptions C02_refolding_is_invisible.
 Print Assumptions C02_parse_vs_parse_wo_compile.
 Print Assumptions C02_folded_parse_is_reference.
+Print Assumptions C02_deep_folding_is_invisible.
+Print Assumptions C02_deep_parse_is_reference.
